@@ -7,12 +7,14 @@ package clientgen
 
 // Codec choice of the client (C01/C10): JSON -> custom marshaler or protojson; x-protobuf -> binary; else protojson.
 //@ emitted func (c *noteServiceClient) marshalRequest(req proto.Message, contentType string) (b []byte, err error)
+//@   modifies *
 //@   ensures one_encoder: (count("MarshalJSON") - old(count("MarshalJSON"))) + (count("protojson.Marshal") - old(count("protojson.Marshal"))) + (count("proto.Marshal") - old(count("proto.Marshal"))) == 1
 //@   at-call proto.Marshal requires binary_only: contentType == "application/x-protobuf"
 //@   at-call MarshalJSON requires json_only: contentType == "application/json"
 //@   at-call protojson.Marshal requires not_binary: contentType != "application/x-protobuf"
 
 //@ emitted func (c *noteServiceClient) unmarshalResponse(body []byte, msg proto.Message, contentType string) (err error)
+//@   modifies *
 //@   ensures empty: len(body) == 0 ==> err == nil && count("UnmarshalJSON") == old(count("UnmarshalJSON")) && count("protojson.Unmarshal") == old(count("protojson.Unmarshal")) && count("proto.Unmarshal") == old(count("proto.Unmarshal"))
 //@   ensures one_decoder: len(body) > 0 ==> (count("UnmarshalJSON") - old(count("UnmarshalJSON"))) + (count("protojson.Unmarshal") - old(count("protojson.Unmarshal"))) + (count("proto.Unmarshal") - old(count("proto.Unmarshal"))) == 1
 //@   at-call proto.Unmarshal requires binary_only: contentType == "application/x-protobuf" && arg0 == body
@@ -21,6 +23,7 @@ package clientgen
 
 // Error mapping of the client (C10): 400 and parseable -> *ValidationError; else parseable as Error -> *Error; else text with status and body.
 //@ emitted func (c *noteServiceClient) handleErrorResponse(statusCode int, body []byte, contentType string) (err error)
+//@   modifies *
 //@   ensures always_an_error: !isNil(err)
 //@   ensures validation_only_for_400: isType(err, *sebufhttp.ValidationError) ==> statusCode == 400
 //@   ensures fallback_mentions_status: !isType(err, *sebufhttp.ValidationError) && !isType(err, *sebufhttp.Error) ==> contains(errmsg(err), strOfInt(statusCode))
@@ -28,6 +31,7 @@ package clientgen
 
 // One RPC method of the extraction schema (GET with path variable and query parameters).
 //@ emitted func (c *noteServiceClient) GetNote(ctx context.Context, req *GetNoteRequest, opts any) (res *Note, err error)
+//@   modifies *
 //@   requires req != nil && c.httpClient != nil
 //@   at-call Do requires content_type_sent: count("Set:Content-Type") > old(count("Set:Content-Type"))
 //@   at-call NewRequestWithContext requires verb: arg1 == "GET"
@@ -36,6 +40,7 @@ package clientgen
 //@   ensures err == nil ==> res != nil
 
 //@ emitted func (c *noteServiceClient) UpdateNote(ctx context.Context, req *UpdateNoteRequest, opts any) (res *Note, err error)
+//@   modifies *
 //@   requires req != nil && c.httpClient != nil
 //@   at-call Do requires content_type_sent: count("Set:Content-Type") > old(count("Set:Content-Type"))
 //@   at-call NewRequestWithContext requires verb: arg1 == "PUT"
